@@ -391,6 +391,8 @@ ADD_ONLY = {
 }
 
 HEAVY_H = {
+    "add_edges_from_iter",
+    "add_edges_from_setarg",
     "add_edges_from_1",
     "add_edges_from_2",
     "add_edges_from_3",
@@ -669,7 +671,7 @@ OPS_D = {
         d_convert_labels,
     ]
 }
-HEAVY_D = {"add_edges_from_1", "add_edges_from_2", "add_edges_from_3", "add_edges_from_4", "add_edges_from_5"}
+HEAVY_D = {"add_edges_from_iter", "add_edges_from_none", "add_edges_from_1", "add_edges_from_2", "add_edges_from_3", "add_edges_from_4", "add_edges_from_5"}
 
 
 # ---------------------------------------------------------------------------
@@ -900,6 +902,8 @@ OPS_S = {
     ]
 }
 HEAVY_S = {
+    "add_simplices_from_iter",
+    "add_simplices_from_maxorder",
     "add_simplices_from_1",
     "add_simplices_from_2",
     "add_simplices_from_3",
